@@ -81,7 +81,8 @@ PollAnswer(kind) ==
          [] kind = "no_change" ->
               /\ reqHash = svc
               /\ UNCHANGED <<hash, polled, lastGood, jobs>>
-         [] kind \in {"error", "malformed"} ->
+         [] kind \in {"error", "malformed", "unknown_type"} ->     \* unknown_type: an answer of a response type this
+                                                                   \* agent does not know (the wire enum is open)
               UNCHANGED <<hash, polled, lastGood, jobs>>
     /\ UNCHANGED <<svc, custom, nreg, regloc, wjob, installed, reqHash, npoll, removed>>
 
@@ -124,7 +125,7 @@ Apply(w) ==
 
 Next ==
     \/ SvcChange \/ PollSend
-    \/ \E k \in {"update", "no_change", "error", "malformed"} : PollAnswer(k)
+    \/ \E k \in {"update", "no_change", "error", "malformed", "unknown_type"} : PollAnswer(k)
     \/ \E loc \in Locations : Register(loc)
     \/ \E r \in 1..MaxRegs : Unregister(r)
     \/ \E w \in Workers : Take(w) \/ Apply(w)
